@@ -577,9 +577,11 @@ void hm_sweep() {
     for (int k = 0; k < n * stride + 2; k++) {
       bool present = ref[k] >= 0;
       if (c->contains(k) != present) fail("ORACLE", "%s: contains(%d) = %d, reference says %d (n %d stride %d)", phase, k, (int)!present, (int)present, n, stride);
-      auto it = c->find(k);
-      bool found = it != c->end();
-      if (found != present || (found && (keyv(it) != k || valv(it) != ref[k]))) fail("ORACLE", "%s: find(%d) disagrees with the reference value %d", phase, k, ref[k]);
+      {  // the iterator goes out of scope before the insertion below: with static_strategy<3> an iterator (two slots) and an insertion (three) do not fit
+        auto it = c->find(k);
+        bool found = it != c->end();
+        if (found != present || (found && (keyv(it) != k || valv(it) != ref[k]))) fail("ORACLE", "%s: find(%d) disagrees with the reference value %d", phase, k, ref[k]);
+      }
       count += present;
       if (present && insert(k, IsMap ? 7 : k)) fail("ORACLE", "%s: insertion of the present key %d succeeded", phase, k);
     }
